@@ -8,7 +8,7 @@ TS = [1, 3, 1000, 2500000, 1000000000]
 def split(script):
     hdr, ops, i = script[:4], [], 4
     while i < len(script):
-        k = {1: 3, 2: 2, 3: 1, 4: 1, 5: 1, 6: 1}.get(script[i])
+        k = {1: 3, 2: 2, 3: 1, 4: 1, 5: 1, 6: 1, 7: 1}.get(script[i])
         if k is None or i + k > len(script):
             break
         ops.append(script[i:i + k]); i += k
@@ -24,7 +24,7 @@ def join(hdr, ops):
 
 def pretty(script):
     hdr, ops = split(script)
-    names = {1: "add", 2: "cancel", 3: "fetch", 4: "len", 5: "time", 6: "peek"}
+    names = {1: "add", 2: "cancel", 3: "fetch", 4: "len", 5: "time", 6: "peek", 7: "check-invariant"}
     s = "n=%d t=%dns start=%d unit=%dns: " % tuple(hdr)
     parts = []
     for o in ops:
@@ -129,10 +129,12 @@ def gen_script(rng, maxlen=60, tie_heavy=False):
         elif r < 0.90:
             k = rng.randint(0, max(0, len(ref.handles) + 1))
             ops.append([2, k]); ref.cancel(k)
-        elif r < 0.93:
+        elif r < 0.92:
             ops.append([4])
-        elif r < 0.97:
+        elif r < 0.95:
             ops.append([6])
+        elif r < 0.98:
+            ops.append([7])
         else:
             ops.append([5])
     if rng.random() < 0.6:  # drain
@@ -179,7 +181,7 @@ def gen_far(rng):
     # cancel every far event, then drain what is left
     for k in far:
         ops.append([2, k]); ref.cancel(k)
-    ops.append([4])
+    ops.append([4]); ops.append([7])
     for _ in range(len(ref.pending()) + 1):
         ops.append([3]); ref.fetch()
     ops.append([4])
@@ -195,7 +197,7 @@ def walk(script, out):
         if i >= len(out):
             raise ValueError("output too short")
         tag = out[i]
-        ln = {1: 1, 2: 3, 3: 2, 4: 2, 5: 1, 9: 2, 8: 1}.get(tag)
+        ln = {1: 1, 2: 3, 3: 2, 4: 2, 5: 1, 9: 2, 8: 1, 7: 6}.get(tag)
         if tag == 6:
             ln = 3 if (i + 1 < len(out) and out[i + 1] == 1) else 2
         if ln is None:
@@ -238,4 +240,6 @@ def mechanisms(script, out):
             ref.fetch()
         elif o[0] == 6:
             m.add("peek")
+        elif o[0] == 7:
+            m.add("representation_invariant_checked")
     return m
